@@ -38,6 +38,14 @@ inline json exact_num(double x, long den) {
 }
 
 inline FILE*& out_file() { static FILE* f = stdout; return f; }      // PV_OUT=<prefix>: every rank writes <prefix>.<rank>
+// quantised quantities go into TLC, whose integers are 32-bit and whose JSON reader wraps silently: saturate (NaN saturates high)
+inline long qsat(double x) {
+    const double LIM = 1.0e9;
+    if (!(x == x)) return (long)LIM;
+    if (x > LIM) return (long)LIM;
+    if (x < -LIM) return -(long)LIM;
+    return (long)x;
+}
 inline void emit(const json& j) {
     std::string s = j.dump();
     s.push_back('\n');
